@@ -5,7 +5,7 @@ CHECKS = {
   "engine": "E1-history-explorer",
   "technique": "explicit-state BFS over operation histories on the real BondList vs. dict model; exhaustive construction inputs; out-of-range leaves in forked children",
   "ref": "DESIGN.md section 4 C02",
-  "text": "Every operation history up to depth 3 (quick) / 4 (thorough) over the listed alphabet from 5 initial lists, every construction array up to 3 rows, and every out-of-range index leaf at every reached state are executed on the real BondList and compared view by view with a dict model; no sampling. Bounded exhaustive coverage is the right level: the defects in this code are small-scope (index wrap-around, precedence on merge, stale per-atom maximum).",
+  "text": "Every operation history up to depth 3 over the listed alphabet from 5 initial lists (one type palette at quick, all five at thorough, plus depth 4 from the 3-atom lists for one palette at thorough), every construction array up to 3 rows, and every out-of-range index leaf at every reached state are executed on the real BondList and compared view by view with a dict model; no sampling. Bounded exhaustive coverage is the right level: the defects in this code are small-scope (index wrap-around, precedence on merge, stale per-atom maximum).",
   "note": "Trusts the dict model in props/c02.py and numpy's own indexing (np.arange(n)[idx]) as the meaning of an index; self-bonds and wrong-length masks are outside the alphabet; compiled behaviour is taken from the generated C next to bonds.pyx.",
  },
 }
